@@ -131,8 +131,8 @@ type nafCase struct {
 	W int
 }
 
-// acc is a 5-limb unsigned accumulator for sum |d|<<i
-type acc [5]uint64
+// acc is a 9-limb (576-bit) unsigned accumulator for sum |d|<<i
+type acc [9]uint64
 
 func (a *acc) addShift(v uint64, i int) {
 	limb, sh := i/64, uint(i%64)
@@ -143,9 +143,9 @@ func (a *acc) addShift(v uint64, i int) {
 	}
 	var c uint64
 	a[limb], c = bits.Add64(a[limb], lo, 0)
-	if limb+1 < 5 {
+	if limb+1 < 9 {
 		a[limb+1], c = bits.Add64(a[limb+1], hi, c)
-		for k := limb + 2; k < 5 && c != 0; k++ {
+		for k := limb + 2; k < 9 && c != 0; k++ {
 			a[k], c = bits.Add64(a[k], 0, c)
 		}
 	}
@@ -183,7 +183,7 @@ func nafCheck(out []int, s []byte, n, w int) string {
 	// pos - neg must equal the integer s
 	var diff acc
 	var b uint64
-	for k := 0; k < 5; k++ {
+	for k := 0; k < 9; k++ {
 		diff[k], b = bits.Sub64(pos[k], neg[k], b)
 	}
 	if b != 0 {
@@ -226,7 +226,7 @@ func nafEval(r *vx.R, s []byte, n, w int, shape string) {
 }
 
 func TestVX_C20_NAF(t *testing.T) {
-	r := vx.Begin("C20", "naf", "DecomposeNAF: n=17 complete (all 65536 inputs x w=1..7); n=257: every P-bit pattern (P=8 quick, 16 thorough) at every bit offset on all-zero and all-one backgrounds x w=1..7, all 2^a-2^b, alternating masks, n-1, 2^256-1, seeded. Shape=(n,w,offset,background) resp. (n,w,class); oracle: the four defining w-NAF conditions checked digit by digit with limb arithmetic (cross-checked against math/big on a sub-sample)")
+	r := vx.Begin("C20", "naf", "DecomposeNAF: n=17 complete (all 65536 inputs x w=1..7); n=257: every P-bit pattern (P=8 quick, 16 thorough) at every bit offset on all-zero and all-one backgrounds x w=1..7, all 2^a-2^b, alternating masks, n-1, 2^256-1, seeded; histories: every ordered pair of calls over n in {9,17,65,129,257,385,513} x w in {1,4,7} (inputs all-ones / seeded / top nibble), the first call also with an out slice that is too short (panics half way), the second call checked. Shape=(n,w,offset,background) resp. (n,w,class); oracle: the four defining w-NAF conditions checked digit by digit with limb arithmetic (cross-checked against math/big on a sub-sample)")
 	defer r.End()
 	if raw, ok := vx.Replay("naf"); ok {
 		var c nafCase
@@ -324,6 +324,47 @@ func TestVX_C20_NAF(t *testing.T) {
 				}
 			}
 			r.Sample(nafCase{vx.Hex(s), 257, 0})
+		}
+	} // histories: a call with other parameters (other length n, other width, an out slice that is too short and makes the
+	// call panic) immediately before the call under test - nothing may be carried over from one call to the next
+	type hp struct{ n, w int }
+	var hps []hp
+	for _, n := range []int{9, 17, 65, 129, 257, 385, 513} {
+		for _, w := range []int{1, 4, 7} {
+			hps = append(hps, hp{n, w})
+		}
+	}
+	hi := 0
+	for _, first := range hps {
+		for _, second := range hps {
+			hi++
+			if !vx.MineIdx(hi) {
+				continue
+			}
+			for _, fill := range []string{"ones", "seeded", "top"} {
+				mk := func(n int) []byte {
+					b := make([]byte, (n-1)/8)
+					switch fill {
+					case "ones":
+						for i := range b {
+							b[i] = 0xff
+						}
+					case "seeded":
+						copy(b, vx.Fill(fmt.Sprintf("nafh%d", n), len(b)))
+					case "top":
+						b[0] = 0xf0
+					}
+					return b
+				}
+				for _, bad := range []bool{false, true} {
+					o1 := make([]int, first.n)
+					if bad {
+						o1 = make([]int, first.n/2) // too short: the first call panics half way
+					}
+					vx.Try(func() { utils.DecomposeNAF(o1, mk(first.n), first.n, first.w) })
+					nafEval(r, mk(second.n), second.n, second.w, fmt.Sprintf("after:n%d:w%d:bad=%v:n%d:w%d:%s", first.n, first.w, bad, second.n, second.w, fill))
+				}
+			}
 		}
 	}
 }
